@@ -1030,6 +1030,11 @@ ENVELOPES = {
 }
 
 
+# fold_asym (added after a seeded change that squared only the first operand's count slipped through): same linear
+# shape of work as fold_depth on the healthy tree, so it shares that family's committed envelope with 2x extra room.
+ENVELOPES['fold_asym'] = {k: (2 * a, d) for k, (a, d) in ENVELOPES['fold_depth'].items()}
+
+
 if __name__ == "__main__":
     if len(sys.argv) == 4 and sys.argv[1] == "merge":
         merge(sys.argv[2], sys.argv[3])
